@@ -35,6 +35,9 @@ LEVEL_TEXT = (
 )
 LEVEL_NOTE = "Trusted: urllib.parse / json of CPython, vpchk/refs/hotp.py, the stand-in cipher for AES (documented), Hypothesis."
 TECHNIQUE = "Hypothesis round-trip testing of URI/JSON/dict serialisation + corrupted-source grammar with exception-class oracle"
+#: thorough tier: seed-dependent tasks are repeated under this many derived seeds (run.py); the listed task functions enumerate fixed domains
+THOROUGH_REPS = 4
+DETERMINISTIC_FNS = ()
 
 TIMES = [0, 59, 1111111109, 1234567890, 20000000000]
 
